@@ -362,6 +362,9 @@ func runC16(c *eng.Ctx) {
 		}
 	}
 	c.Floor(4)
+	// ---- R15.8 (shared) the configuration keys this property's switches hang on reach their fields
+	ruleConfigWiring(c, "R15.8")
+
 }
 
 // ruleInternalPublishesWaive (R16.9, shared with C11 and C18): a PublishRequest that the server builds itself (cursors,
